@@ -41,8 +41,9 @@ type lmGraph struct {
 	init   string
 }
 
-func lmConfig(g *lmm.Geom, initMax uint64, maxOps int, emit bool) string {
-	s := fmt.Sprintf("CONSTANTS\n  R = %d\n  NB = %d\n  NVox <- NVoxDef\n  InitSV <- InitSVDef\n  InitMax = %d\n  MaxOps = %d\n", g.R, len(g.Blocks), initMax, maxOps)
+func lmConfig(g *lmm.Geom, initMax uint64, maxOps int, emit bool, overwrite bool) string {
+	s := fmt.Sprintf("CONSTANTS\n  R = %d\n  NB = %d\n  NVox <- NVoxDef\n  InitSV <- InitSVDef\n  InitMax = %d\n  MaxOps = %d\n  Classes1 <- Classes1Def\n  Classes2 <- Classes2Def\n  WithOverwrite = %s\n",
+		g.R, len(g.Blocks), initMax, maxOps, map[bool]string{true: "TRUE", false: "FALSE"}[overwrite])
 	if emit {
 		return "SPECIFICATION SpecEmit\n" + s + "VIEW View\nINVARIANTS EmitObs\nCHECK_DEADLOCK FALSE\n"
 	}
@@ -61,11 +62,11 @@ func maxU64(a []uint64) uint64 {
 
 // lmExplore model-checks the labelmap specification for one geometry/layout and returns the
 // transition graph with the expected observation of every target state.
-func lmExplore(c *Ctx, g *lmm.Geom, initSV []uint64, maxOps, mcOps int) (*lmGraph, int64, int64) {
-	files := map[string][]byte{"LabelGeom.tla": []byte(g.TLAConstants(initSV))}
-	files["gen_lm_mc.cfg"] = []byte(lmConfig(g, maxU64(initSV), mcOps, false))
+func lmExplore(c *Ctx, g *lmm.Geom, initSV []uint64, maxOps, mcOps int, l1, l2 *lmm.LevelTab, overwrite bool) (*lmGraph, int64, int64) {
+	files := map[string][]byte{"LabelGeom.tla": []byte(g.TLAConstantsDownres(initSV, l1, l2))}
+	files["gen_lm_mc.cfg"] = []byte(lmConfig(g, maxU64(initSV), mcOps, false, overwrite))
 	mc := c.MustModelCheck(tlc.Opts{Module: "Labelmap_mc", Config: "gen_lm_mc.cfg", Files: files, Timeout: 20 * time.Minute})
-	files["gen_lm_emit.cfg"] = []byte(lmConfig(g, maxU64(initSV), maxOps, true))
+	files["gen_lm_emit.cfg"] = []byte(lmConfig(g, maxU64(initSV), maxOps, true, overwrite))
 	r := c.MustModelCheck(tlc.Opts{Module: "Labelmap_mc", Config: "gen_lm_emit.cfg", Files: files, Workers: 1, Timeout: 20 * time.Minute})
 	gr := &lmGraph{states: map[string]*lmState{}}
 	obsOf := map[string]lmm.Obs{}
@@ -106,6 +107,9 @@ func lmExplore(c *Ctx, g *lmm.Geom, initSV []uint64, maxOps, mcOps int) (*lmGrap
 		if !ok {
 			continue // target beyond the depth bound was generated but never became a state
 		}
+		if e.L.Op == "overwrite" {
+			e.L.NewSV = e.T.SV
+		}
 		gr.edges = append(gr.edges, lmEdge{S: e.S, L: e.L, T: e.T, Obs: ob})
 		ei := len(gr.edges) - 1
 		src.out = append(src.out, ei)
@@ -133,6 +137,7 @@ type c08Divergence struct {
 	Status   int         `json:"status,omitempty"`
 	Diffs    []string    `json:"diffs"`
 	Labels   interface{} `json:"spec_to_real_labels,omitempty"`
+	LogTail  string      `json:"server_log_tail,omitempty"`
 }
 
 func (gr *lmGraph) pathTo(k string) []lmm.Op {
@@ -193,7 +198,7 @@ func (w *lmWorker) report(kind string, sk string, op lmm.Op, status int, diffs [
 	if len(diffs) > 15 {
 		diffs = diffs[:15]
 	}
-	run.Violation("c08", c08Divergence{Kind: kind, Geometry: w.gname, InitSV: w.initSV, Path: w.gr.pathTo(sk), Op: op, Status: status, Diffs: diffs, Labels: lab.ToReal})
+	run.Violation("c08", c08Divergence{Kind: kind, Geometry: w.gname, InitSV: w.initSV, Path: w.gr.pathTo(sk), Op: op, Status: status, Diffs: diffs, Labels: lab.ToReal, LogTail: w.n.StderrTail(1200)})
 }
 
 func (w *lmWorker) start() (string, *lmm.Labels) {
@@ -216,6 +221,9 @@ func (w *lmWorker) start() (string, *lmm.Labels) {
 	must(err, "compare initial")
 	if len(d) > 0 {
 		w.report("initial-ingest-mismatch", w.gr.init, lmm.Op{Op: "ingest"}, 200, d, lab, w.run)
+	}
+	if w.afterEdge != nil {
+		w.afterEdge(w, o.Root, lmEdge{L: lmm.Op{Op: "ingest"}, T: init.key, Obs: init.obs}, lab)
 	}
 	w.commit(o.Root)
 	return o.Root, lab
@@ -254,6 +262,16 @@ func (w *lmWorker) explore(sk, uuid string, lab *lmm.Labels) {
 		must(w.in.Idle(), "idle")
 		d, err := w.in.Compare(child, e.Obs, cl, lmm.Full)
 		must(err, "compare")
+		if len(d) > 0 && e.L.Op == "overwrite" {
+			// voxel writes update label indices and max labels in goroutines no idle predicate
+			// covers (go d.aggregateBlockChanges): compare as "eventually within 10 s"
+			deadline := time.Now().Add(10 * time.Second)
+			for len(d) > 0 && time.Now().Before(deadline) {
+				time.Sleep(5 * time.Millisecond)
+				d, err = w.in.Compare(child, e.Obs, cl, lmm.Full)
+				must(err, "compare")
+			}
+		}
 		if len(d) > 0 {
 			w.report("state-mismatch-after-operation", sk, e.L, 200, d, cl, w.run)
 			continue
@@ -341,7 +359,7 @@ func checkC08(c *Ctx) int {
 	}
 	var states, trans, edges, restarts int64
 	for _, lo := range layouts {
-		gr, s, t := lmExplore(c, lo.g, lo.initSV, lo.ops, lo.ops+1)
+		gr, s, t := lmExplore(c, lo.g, lo.initSV, lo.ops, lo.ops+1, nil, nil, lo.name != "small6/A")
 		states += s
 		trans += t
 		nw := 12
@@ -353,7 +371,11 @@ func checkC08(c *Ctx) int {
 				defer wg.Done()
 				defer func() {
 					if e := recover(); e != nil {
-						firstErr.Store(fmt.Sprint(e))
+						if ie, ok := e.(infraErr); ok {
+							firstErr.Store(ie.err.Error())
+						} else {
+							firstErr.Store(fmt.Sprint(e))
+						}
 					}
 				}()
 				w := &lmWorker{c: c, run: run, run12: run12, gr: gr, g: lo.g, initSV: lo.initSV, gname: lo.name, w: wi, nw: nw,
@@ -374,7 +396,7 @@ func checkC08(c *Ctx) int {
 	run.Set("transitions", trans)
 	run.Set("traces_validated_against_impl", edges)
 	run.Set("restarts_with_full_compare", restarts)
-	run.Set("rule", "case = one transition (merge / cleave / split-supervoxel / renumber with every argument choice) of the TLC state graph of Labelmap.tla from an initial layout, executed on a real labelmap instance in a fresh child branch of the version holding the source state; after it every read endpoint (raw and mapped volume decoded to regions and checked voxel-exact within regions, size, supervoxels, sparsevol rles/srles, sparsevol-size, sparsevol-coarse, index, supervoxel-sizes, label, labels, mapping, sizes, listlabels) is compared with the specification's observation, the parent version is re-read (isolation), and periodically the process is restarted and everything re-read")
+	run.Set("rule", "case = one transition (merge / cleave / split-supervoxel / renumber / mutating voxel write of a region, with every argument choice) of the TLC state graph of Labelmap.tla from an initial layout, executed on a real labelmap instance in a fresh child branch of the version holding the source state; after it every read endpoint (raw and mapped volume decoded to regions and checked voxel-exact within regions, size, supervoxels, sparsevol rles/srles, sparsevol-size, sparsevol-coarse, index, supervoxel-sizes, label, labels, mapping, sizes, listlabels) is compared with the specification's observation, the parent version is re-read (isolation), and periodically the process is restarted and everything re-read")
 	run.Assume = []string{"voxel layouts are unions of <=12 box-shaped regions of a 4-block volume (incl. negative coordinates, a single voxel, one 8^3 sub-block)", "label ids are compared modulo the bijection bound from the server's responses"}
 	// C12 (label part) evidence is written by this run as well
 	run12.Set("states", states)
